@@ -9,7 +9,6 @@ REPO = os.environ.get("VERIF_REPO", "/repo")
 sys.path[:] = [p for p in sys.path if os.path.abspath(p or ".") not in (HERE,)]
 sys.path.insert(0, VERIF)
 sys.path.insert(0, REPO)
-sys.setrecursionlimit(10000)
 
 
 def main():
